@@ -205,6 +205,7 @@ pub fn run(run: &mut Run) {
         }
     }
     concurrent_clients_on_the_primary(run, quick);
+    real_transport_stage(run, if quick { 2 } else { 3 });
     run.cov("scripts", json!(scs.len()));
     run.cov("nodes", json!(nodes));
     run.cov_add("states", total.states);
@@ -253,4 +254,39 @@ fn concurrent_clients_on_the_primary(run: &mut Run, quick: bool) {
     run.cov_add("transitions", pts);
     run.cov_add("traces_validated_against_impl", ex);
     run.assume("concurrent clients: scheduling points are the lock acquisitions of the shim RwLock and the point between applying a command and queueing it for replication; the replica is a fresh node fed the primary's queue over one FIFO link");
+}
+
+/// The link model against the real transport (wire.rs), and this property's oracle on the real
+/// cluster: after every operation of the scenario every node process serves the primary's data.
+fn real_transport_stage(run: &mut Run, nodes: usize) {
+    let out = match crate::wire::stage(nodes, "none") {
+        Ok(o) => o,
+        Err(e) => {
+            eprintln!("machinery: real-transport stage: {}", e);
+            std::process::exit(2);
+        }
+    };
+    let mut seen = std::collections::BTreeSet::new();
+    for (clause, shape, detail) in crate::wire::real_convergence(&out) {
+        if seen.insert(shape.clone()) {
+            run.violate(crate::report::Violation { clause, shape, detail, replay: json!({"engine":"wire","nodes":nodes}) });
+        }
+    }
+    if let Some(u) = &out.real.unsettled {
+        run.violate(crate::report::Violation {
+            clause: "replication-does-not-settle".into(),
+            shape: "the real cluster does not settle".into(),
+            detail: format!("real cluster ({} node processes over TCP): {}", nodes, u),
+            replay: json!({"engine":"wire","nodes":nodes}),
+        });
+    } else if !out.conf.differences.is_empty() {
+        eprintln!("machinery: the link model of the NET engine does not conform to the real transport ({} nodes, {} real runs):", nodes, out.real_runs);
+        for d in out.conf.differences.iter() {
+            eprintln!("  {}", d);
+        }
+        std::process::exit(2);
+    }
+    run.cov_add("traces_validated_against_impl", out.conf.links_compared as u64);
+    run.cov("link_model_conformance", crate::wire::evidence(&out));
+    run.assume("real-transport stage: one schedule of the real system (the operating system's); operations are issued one at a time, each after every copy has been acknowledged and the links have been silent for 250 ms");
 }
